@@ -83,7 +83,7 @@ func c16ConfigCoincide(p *spec.Program) spec.Config {
 }
 
 // ConfigPathShapes: ways of naming a readable configuration file.
-var ConfigPathShapes = []string{"absolute", "subdir", "dotdot", "symlink", "symlink-chain", "symlink-dir", "hardlink", "spaces", "noext", "hidden", "readonly"}
+var ConfigPathShapes = []string{"absolute", "subdir", "dotdot", "symlink", "symlink-chain", "symlink-dir", "hardlink", "spaces", "noext", "hidden", "readonly", "json-ext", "upper-ext"}
 
 func allOn(ch spec.Channel) map[string]spec.Channel {
 	m := map[string]spec.Channel{}
